@@ -47,7 +47,7 @@ class Check:
     scale = 1.0
 
     # coverage-guided campaigns: (number of campaigns, executions each)
-    fuzz = {'quick': (2, 800), 'thorough': (16, 20000)}
+    fuzz = {'quick': (2, 800), 'thorough': (16, 8000)}
 
     def fuzz_budget(self, tier):
         n, runs = self.fuzz.get(tier, (0, 0))
